@@ -263,6 +263,22 @@ CHECKS = {
                 "its reference transitive reduction. Whether the written name itself counts as read is left open.",
         "technique": "bounded model checking: small-domain choices enumerated by z3 with coverage queries; path assertions against independent scans and a reference transitive reduction",
     },
+    "C17": {
+        "level": "model_checking",
+        "text": "Bounded symbolic model checking with the hash seed as a symbolic variable: hash() in the generated and legacy "
+                "methods is the uninterpreted function H(seed, structural code); the harness hashes / compares / copies under "
+                "seed1, pickles (protocols 0, 2, highest; thorough all), switches to seed2 and unpickles; z3 proves for all "
+                "seed1, seed2 and all symbolic field values that the unpickled object equals, and hashes like, the object "
+                "rebuilt from source under seed2 - for every node class, 7 user classes (decorated / legacy / mixed) and 6 "
+                "operation orders. Persistent keys (PersistentHashWalkMapper bytes, pytools KeyBuilder digests) are compared "
+                "across object sharing, cached hashes and two hash functions. CompiledExpression pickles. A small concrete "
+                "family runs real producer/consumer interpreters (PYTHONHASHSEED, -O) as confirmation only.",
+        "design_ref": "DESIGN.md §4 C17",
+        "note": "Partial by nature: real OS processes, CPython's set/dict iteration order under PYTHONHASHSEED and -O "
+                "producer/consumer pairs cannot be encoded; they are only sampled by the 8-pair concrete family. Trusted: the "
+                "UF model of hash.",
+        "technique": SOLVER_TECH + "; hash() as an uninterpreted function of a symbolic seed that is switched across the pickle boundary",
+    },
 }
 
 _PENDING = "check not built yet in this session (the design in DESIGN.md applies; will be claimed once its harness exists)"
